@@ -529,7 +529,7 @@ Proof.
     + destruct (run_inputs (w_g w) k (wn_mapped n) (wn_pending n)) as [[g' m'] [e|]] eqn:R.
       * simpl. split; [discriminate|]. intros H. specialize (H k (or_introl eq_refl)).
         unfold nd_ok in H. rewrite G, R in H. simpl in H. discriminate.
-      * set (w' := w_set_nodes (alist_set k (mkWN [] m') (w_nodes w)) (w_set_g g' w)).
+      * set (w' := w_set_nodes (alist_set k (mkWN [] m' (wn_static n)) (w_nodes w)) (w_set_g g' w)).
         rewrite (IH w').
         assert (EQ : forall k', nd_ok w' k' <-> nd_ok w k').
         { intros k'. unfold nd_ok. destruct (String.eqb k' k) eqn:X.
@@ -693,10 +693,10 @@ Proof.
   destruct (String.eqb k x); [reflexivity|assumption].
 Qed.
 
-Lemma pendmap_set : forall k m nodes,
-  pendmap (alist_set k (mkWN [] m) nodes) = alist_set k [] (pendmap nodes).
+Lemma pendmap_set : forall k m st nodes,
+  pendmap (alist_set k (mkWN [] m st) nodes) = alist_set k [] (pendmap nodes).
 Proof.
-  intros k m nodes. unfold pendmap. induction nodes as [|[x n] l IH]; simpl; [reflexivity|].
+  intros k m st nodes. unfold pendmap. induction nodes as [|[x n] l IH]; simpl; [reflexivity|].
   destruct (String.eqb k x); simpl; [reflexivity|]. rewrite IH. reflexivity.
 Qed.
 
@@ -1046,6 +1046,8 @@ Qed.
 
 Lemma fm_nodup_set_err : forall g e, fm_nodup g -> fm_nodup (set_err e g).
 Proof. intros g e N. exact N. Qed.
+Lemma fm_nodup_set_prenode : forall g x, fm_nodup g -> fm_nodup (set_h_prenode x g).
+Proof. intros g x N. exact N. Qed.
 
 (* ---- the workflow's own node table has distinct keys *)
 Lemma nodup_alist_set : forall {A} k (a : A) l, NoDup (map fst l) -> NoDup (map fst (alist_set k a l)).
@@ -1072,23 +1074,40 @@ Qed.
 Lemma run_branches_nodes' : forall v bs w, w_nodes (fst (run_branches v w bs)) = w_nodes w.
 Proof. exact run_branches_nodes. Qed.
 
+Lemma wn_nodup_run_statics : forall v L w, wn_nodup w -> wn_nodup (fst (run_statics v w L)).
+Proof.
+  induction L as [|k rest IH]; intros w N; simpl; [assumption|].
+  destruct (alist_get k (w_nodes w)) as [n|]; [|apply IH; assumption].
+  destruct (wn_static n) as [|f fs]; [apply IH; assumption|].
+  dif; [assumption|].
+  destruct (check_mapped (wn_mapped n) (f :: fs)) as [m' [e|]]; simpl.
+  - unfold wn_nodup. simpl. apply nodup_alist_set. exact N.
+  - apply IH. unfold wn_nodup. simpl. apply nodup_alist_set. exact N.
+Qed.
+
 Lemma wn_nodup_wstep : forall v w call, wn_nodup w -> wn_nodup (fst (wstep v w call)).
 Proof.
   intros v w [] N; simpl.
   - destruct (g_add_node _ _ _ _ _ _). unfold wn_nodup. simpl. apply nodup_alist_set. exact N.
   - set (nodes := if String.eqb to END_ && negb (is_some (alist_get to (w_nodes w)))
-                  then alist_set to (mkWN [] MNone) (w_nodes w) else w_nodes w).
+                  then alist_set to (mkWN [] MNone []) (w_nodes w) else w_nodes w).
     assert (NN : NoDup (map fst nodes)) by (unfold nodes; dif; [apply nodup_alist_set|]; exact N).
     destruct (alist_get to nodes); [|exact N]. unfold wn_nodup. simpl. apply nodup_alist_set. exact NN.
   - exact N.
   - destruct (g_add_edge _ _ _ _ _ _). exact N.
+  - set (nodes := if String.eqb k END_ && negb (is_some (alist_get k (w_nodes w)))
+                  then alist_set k (mkWN [] MNone []) (w_nodes w) else w_nodes w).
+    assert (NN : NoDup (map fst nodes)) by (unfold nodes; dif; [apply nodup_alist_set|]; exact N).
+    destruct (alist_get k nodes); [|exact N]. unfold wn_nodup. simpl. apply nodup_alist_set. exact NN.
   - unfold w_compile. destruct (g_err (w_g w)); [exact N|].
     pose proof (run_branches_nodes v (w_branches w) w) as B.
     destruct (run_branches v w (w_branches w)) as [w1 [out|]]; simpl in B; [simpl; unfold wn_nodup; rewrite B; exact N|].
     assert (N1 : wn_nodup w1) by (unfold wn_nodup; rewrite B; exact N).
     pose proof (wn_nodup_run_nodes (ord ++ map fst (w_nodes w1)) w1 N1) as N2.
     destruct (run_nodes w1 (ord ++ map fst (w_nodes w1))) as [w2 [e|]]; simpl in N2; [exact N2|].
-    destruct (g_compile v (w_g w2) o). exact N2.
+    pose proof (wn_nodup_run_statics v (sord ++ map fst (w_nodes w2)) w2 N2) as N3.
+    destruct (run_statics v w2 (sord ++ map fst (w_nodes w2))) as [w3 [e|]]; simpl in N3; [exact N3|].
+    destruct (g_compile v (w_g w3) o). exact N3.
 Qed.
 
 (* ================================================================== 7. the theorem *)
@@ -1182,12 +1201,124 @@ Proof.
   - symmetry. exact T5.
 Qed.
 
-(* accept / reject of Workflow.compile is the same for every visiting order *)
-Theorem w_compile_order_independent : forall w o ord1 ord2,
-  wf_ok w ->
-  is_compiled (snd (w_compile fixed w o ord1)) = is_compiled (snd (w_compile fixed w o ord2)).
+(* ---- what the node phase leaves in the workflow's own node table, key by key *)
+Definition mres (g : gstate) (k : string) (n : wnode) : mapped :=
+  snd (fst (run_inputs g k (wn_mapped n) (wn_pending n))).
+
+Lemma run_nodes_untouched : forall L w k, ~ In k L ->
+  alist_get k (w_nodes (fst (run_nodes w L))) = alist_get k (w_nodes w).
 Proof.
-  intros w o ord1 ord2 OK. unfold w_compile. destruct (g_err (w_g w)); [reflexivity|].
+  induction L as [|h rest IH]; intros w k N; simpl; [reflexivity|].
+  assert (NH : k <> h) by (intros C; apply N; left; auto).
+  assert (NR : ~ In k rest) by (intros C; apply N; right; assumption).
+  destruct (alist_get h (w_nodes w)) as [n|]; [|apply IH; assumption].
+  destruct (run_inputs (w_g w) h (wn_mapped n) (wn_pending n)) as [[g' m'] [e|]]; simpl.
+  - apply alist_get_set_other. assumption.
+  - rewrite IH by assumption. simpl. apply alist_get_set_other. assumption.
+Qed.
+
+Lemma mres_agree : forall k g g2 n,
+  agree_on k g g2 -> snd (run_inputs g k (wn_mapped n) (wn_pending n)) = None -> mres g2 k n = mres g k n.
+Proof.
+  intros k g g2 n AG H. unfold mres.
+  destruct (run_inputs g k (wn_mapped n) (wn_pending n)) as [[g' m'] r] eqn:R. simpl in H. subst r.
+  destruct (sim_inputs _ _ _ _ _ _ _ AG R) as [g2' [R2 _]]. rewrite R2. reflexivity.
+Qed.
+
+Lemma run_nodes_final_node : forall L w w' k n,
+  run_nodes w L = (w', None) -> alist_get k (w_nodes w) = Some n -> In k L ->
+  alist_get k (w_nodes w') = Some (mkWN [] (mres (w_g w) k n) (wn_static n)).
+Proof.
+  induction L as [|h rest IH]; intros w w' k n H G I; [contradiction|]. simpl in H.
+  destruct (String.eqb h k) eqn:X.
+  - apply String.eqb_eq in X; subst h. rewrite G in H.
+    destruct (run_inputs (w_g w) k (wn_mapped n) (wn_pending n)) as [[g' m'] [e|]] eqn:R; [discriminate|].
+    assert (M : mres (w_g w) k n = m') by (unfold mres; rewrite R; reflexivity).
+    set (w1 := w_set_nodes (alist_set k (mkWN [] m' (wn_static n)) (w_nodes w)) (w_set_g g' w)) in *.
+    assert (G1 : alist_get k (w_nodes w1) = Some (mkWN [] m' (wn_static n))) by (unfold w1; simpl; apply alist_get_set_same).
+    rewrite M.
+    destruct (in_dec string_dec k rest) as [IR|NR].
+    + rewrite (IH w1 w' k _ H G1 IR). unfold mres. simpl. reflexivity.
+    + pose proof (run_nodes_untouched rest w1 k NR) as U. rewrite H in U. simpl in U. rewrite U. exact G1.
+  - apply String.eqb_neq in X. destruct I as [I|I]; [congruence|].
+    destruct (alist_get h (w_nodes w)) as [nh|] eqn:GH; [|eapply IH; eassumption].
+    destruct (run_inputs (w_g w) h (wn_mapped nh) (wn_pending nh)) as [[g' m'] [e|]] eqn:R; [discriminate|].
+    set (w1 := w_set_nodes (alist_set h (mkWN [] m' (wn_static nh)) (w_nodes w)) (w_set_g g' w)) in *.
+    assert (G1 : alist_get k (w_nodes w1) = Some n).
+    { unfold w1. simpl. rewrite alist_get_set_other by congruence. exact G. }
+    assert (AG : agree_on k (w_g w) (w_g w1)) by (unfold w1; simpl; eapply other_inputs; [|exact R]; assumption).
+    rewrite (IH w1 w' k n H G1 I).
+    (* node k succeeds in w1 (the whole phase succeeded), hence in w, with the same result *)
+    assert (OK1 : snd (run_inputs (w_g w1) k (wn_mapped n) (wn_pending n)) = None).
+    { assert (Q : snd (run_nodes w1 rest) = None) by (rewrite H; reflexivity).
+      pose proof (proj1 (run_nodes_ok_iff rest w1) Q k I) as ND. unfold nd_ok in ND. rewrite G1 in ND. exact ND. }
+    rewrite (mres_agree k (w_g w1) (w_g w) n (agree_sym _ _ _ AG) OK1). reflexivity.
+Qed.
+
+(* ---- the static values stage: node-local *)
+Definition st_ok (w : wstate) (k : string) : Prop :=
+  match alist_get k (w_nodes w) with
+  | None => True
+  | Some n => wn_static n = [] \/
+              (g_compiled (w_g w) = false /\ snd (check_mapped (wn_mapped n) (wn_static n)) = None)
+  end.
+
+Theorem run_statics_ok_iff : forall L w, snd (run_statics fixed w L) = None <-> forall k, In k L -> st_ok w k.
+Proof.
+  induction L as [|k rest IH]; intros w; simpl.
+  - split; [intros _ k []|reflexivity].
+  - destruct (alist_get k (w_nodes w)) as [n|] eqn:G.
+    + destruct (wn_static n) as [|f fs] eqn:ST.
+      * rewrite IH. split; intros H k' K.
+        -- destruct K as [K|K]; [subst; unfold st_ok; rewrite G; left; assumption|auto].
+        -- apply H. right; assumption.
+      * destruct (g_compiled (w_g w)) eqn:C; simpl.
+        -- split; [discriminate|]. intros H. specialize (H k (or_introl eq_refl)). unfold st_ok in H.
+           rewrite G, ST, C in H. destruct H as [H|[H _]]; discriminate.
+        -- destruct (check_mapped (wn_mapped n) (f :: fs)) as [m' [e|]] eqn:CM; simpl.
+           ++ split; [discriminate|]. intros H. specialize (H k (or_introl eq_refl)). unfold st_ok in H.
+              rewrite G, ST, CM in H. destruct H as [H|[_ H]]; discriminate.
+           ++ set (w1 := w_set_nodes (alist_set k (mkWN (wn_pending n) m' []) (w_nodes w))
+                           (w_set_g (set_h_prenode (k :: g_h_prenode (w_g w)) (w_g w)) w)).
+              rewrite (IH w1).
+              assert (EQ : forall k', st_ok w1 k' <-> st_ok w k').
+              { intros k'. unfold st_ok. destruct (String.eqb k' k) eqn:X.
+                - apply String.eqb_eq in X; subst k'. unfold w1. simpl. rewrite alist_get_set_same, G, ST, CM. simpl.
+                  split; intros _; [right; split; [assumption|reflexivity]|left; reflexivity].
+                - apply String.eqb_neq in X. unfold w1. simpl. rewrite (alist_get_set_other k' k _ _ X). tauto. }
+              split.
+              ** intros H k' [K|K]; [subst; unfold st_ok; rewrite G, ST, CM; right; auto|apply EQ; apply H; assumption].
+              ** intros H k' K. apply EQ. apply H. right; assumption.
+    + rewrite IH. split.
+      * intros H k' [K|K]; [subst; unfold st_ok; rewrite G; exact I|auto].
+      * intros H k' K. apply H. right; assumption.
+Qed.
+
+(* it only touches the pre-node handlers of the graph *)
+Lemma set_prenode_twice : forall a b g, set_h_prenode a (set_h_prenode b g) = set_h_prenode a g.
+Proof. intros a b []; reflexivity. Qed.
+
+Lemma run_statics_graph : forall L w, exists x, w_g (fst (run_statics fixed w L)) = set_h_prenode x (w_g w).
+Proof.
+  induction L as [|k rest IH]; intros w; simpl.
+  - exists (g_h_prenode (w_g w)). destruct (w_g w); reflexivity.
+  - assert (Z : exists x, w_g w = set_h_prenode x (w_g w)) by (exists (g_h_prenode (w_g w)); destruct (w_g w); reflexivity).
+    destruct (alist_get k (w_nodes w)) as [n|]; [|apply IH].
+    destruct (wn_static n) as [|f fs]; [apply IH|]. dif; [exact Z|].
+    destruct (check_mapped (wn_mapped n) (f :: fs)) as [m' [e|]]; [exact Z|].
+    match goal with |- context[run_statics fixed ?W rest] => destruct (IH W) as [x E] end.
+    exists x. rewrite E. simpl. apply set_prenode_twice.
+Qed.
+
+Lemma compile_ok_prenode : forall x g o, compile_ok (set_h_prenode x g) o = compile_ok g o.
+Proof. intros x [] o. reflexivity. Qed.
+
+(* accept / reject of Workflow.compile is the same for every pair of visiting orders *)
+Theorem w_compile_order_independent : forall w o ord1 sord1 ord2 sord2,
+  wf_ok w ->
+  is_compiled (snd (w_compile fixed w o ord1 sord1)) = is_compiled (snd (w_compile fixed w o ord2 sord2)).
+Proof.
+  intros w o ord1 sord1 ord2 sord2 OK. unfold w_compile. destruct (g_err (w_g w)); [reflexivity|].
   pose proof (wf_ok_run_branches (w_branches w) w OK) as OK1.
   destruct (run_branches fixed w (w_branches w)) as [w1 [out|]]; [reflexivity|]. simpl in OK1.
   set (L1 := ord1 ++ map fst (w_nodes w1)). set (L2 := ord2 ++ map fst (w_nodes w1)).
@@ -1214,9 +1345,49 @@ Proof.
     { pose proof (lwinv_run_nodes fm_nodup fm_nodup_add_edge L1 w1 (wo_fm _ OK1)) as X. rewrite R1 in X. exact X. }
     assert (F2 : fm_nodup (w_g w22)).
     { pose proof (lwinv_run_nodes fm_nodup fm_nodup_add_edge L2 w1 (wo_fm _ OK1)) as X. rewrite R2 in X. exact X. }
-    pose proof (compile_ok_eq (w_g w21) (w_g w22) o I1 I2 F1 F2 S) as E.
-    rewrite <- !g_compile_verdict in E.
-    destruct (g_compile fixed (w_g w21) o) as [ga oa]. destruct (g_compile fixed (w_g w22) o) as [gb ob]. exact E.
+    (* the two node tables agree key by key *)
+    assert (NK : forall k, alist_get k (w_nodes w21) = alist_get k (w_nodes w22)).
+    { intros k. destruct (alist_get k (w_nodes w1)) as [n|] eqn:G.
+      - rewrite (run_nodes_final_node L1 w1 w21 k n R1 G (C1 k (alist_get_in_keys _ _ _ G))).
+        rewrite (run_nodes_final_node L2 w1 w22 k n R2 G (C2 k (alist_get_in_keys _ _ _ G))). reflexivity.
+      - (* a key without a node: alist_set never creates one for another key *)
+        assert (Z : forall L w w', run_nodes w L = (w', None) -> alist_get k (w_nodes w) = None -> alist_get k (w_nodes w') = None).
+        { induction L as [|h rest IH]; intros w0 w' H N0; simpl in H; [inversion H; subst; assumption|].
+          destruct (alist_get h (w_nodes w0)) as [nh|] eqn:GH; [|eapply IH; eassumption].
+          destruct (run_inputs (w_g w0) h (wn_mapped nh) (wn_pending nh)) as [[g' m'] [e|]]; [discriminate|].
+          eapply IH; [exact H|]. simpl. rewrite alist_get_set_other; [assumption|]. intros C; subst. congruence. }
+        rewrite (Z L1 w1 w21 R1 G), (Z L2 w1 w22 R2 G). reflexivity. }
+    assert (CC : g_compiled (w_g w21) = g_compiled (w_g w22)).
+    { pose proof (run_nodes_effect _ _ _ R1) as E1. pose proof (run_nodes_effect _ _ _ R2) as E2.
+      rewrite (se_compiled _ _ _ E1), (se_compiled _ _ _ E2). reflexivity. }
+    assert (K1 : map fst (w_nodes w21) = map fst (w_nodes w1) /\ map fst (w_nodes w22) = map fst (w_nodes w1)).
+    { assert (Z : forall L w w' r, run_nodes w L = (w', r) -> map fst (w_nodes w') = map fst (w_nodes w)).
+      { induction L as [|h rest IH]; intros w0 w' r H; simpl in H; [inversion H; subst; reflexivity|].
+        destruct (alist_get h (w_nodes w0)) as [nh|] eqn:GH; [|eapply IH; eassumption].
+        destruct (run_inputs (w_g w0) h (wn_mapped nh) (wn_pending nh)) as [[g' m'] [e|]].
+        - inversion H; subst. simpl. apply (set_keys h _ nh _ GH).
+        - rewrite (IH _ _ _ H). simpl. apply (set_keys h _ nh _ GH). }
+      split; eapply Z; eassumption. }
+    destruct K1 as [K1 K2].
+    set (M1 := sord1 ++ map fst (w_nodes w21)). set (M2 := sord2 ++ map fst (w_nodes w22)).
+    assert (SV : snd (run_statics fixed w21 M1) = None <-> snd (run_statics fixed w22 M2) = None).
+    { rewrite !run_statics_ok_iff.
+      assert (ST : forall k, st_ok w21 k <-> st_ok w22 k).
+      { intros k. unfold st_ok. rewrite (NK k), CC. tauto. }
+      split; intros H k K.
+      - destruct (alist_get k (w_nodes w22)) as [n|] eqn:G; [|unfold st_ok; rewrite G; exact I].
+        apply ST. apply H. apply in_or_app. right. rewrite K1, <- K2. eapply alist_get_in_keys; eassumption.
+      - destruct (alist_get k (w_nodes w21)) as [n|] eqn:G; [|unfold st_ok; rewrite G; exact I].
+        apply ST. apply H. apply in_or_app. right. rewrite K2, <- K1. eapply alist_get_in_keys; eassumption. }
+    destruct (run_statics_graph M1 w21) as [x1 G1]. destruct (run_statics_graph M2 w22) as [x2 G2].
+    destruct (run_statics fixed w21 M1) as [w31 [e1|]] eqn:S1; destruct (run_statics fixed w22 M2) as [w32 [e2|]] eqn:S2; simpl in SV, G1, G2.
+    + reflexivity.
+    + destruct SV as [_ SV]. specialize (SV eq_refl). discriminate.
+    + destruct SV as [SV _]. specialize (SV eq_refl). discriminate.
+    + pose proof (compile_ok_eq (w_g w21) (w_g w22) o I1 I2 F1 F2 S) as E.
+      rewrite <- (compile_ok_prenode x1 (w_g w21) o), <- (compile_ok_prenode x2 (w_g w22) o) in E.
+      rewrite <- G1, <- G2 in E. rewrite <- !g_compile_verdict in E.
+      destruct (g_compile fixed (w_g w31) o) as [ga oa]. destruct (g_compile fixed (w_g w32) o) as [gb ob]. exact E.
 Qed.
 
 (* every reachable Workflow state satisfies the side conditions *)
@@ -1226,7 +1397,7 @@ Proof.
   - apply reachable_ginv.
   - apply reachable_pinv.
   - apply (run_keeps (wstep fixed) (fun w => fm_nodup (w_g w))); [|constructor].
-    intros s c H. apply (lwinv_wstep fm_nodup fm_nodup_add_node fm_nodup_add_edge fm_nodup_add_branch fm_nodup_compile fm_nodup_set_err). exact H.
+    intros s c H. apply (lwinv_wstep fm_nodup fm_nodup_add_node fm_nodup_add_edge fm_nodup_add_branch fm_nodup_compile fm_nodup_set_err fm_nodup_set_prenode). exact H.
   - apply (run_keeps (wstep fixed) wn_nodup); [|constructor].
     intros s c H. apply wn_nodup_wstep. exact H.
 Qed.
@@ -1241,6 +1412,67 @@ Definition two_failing : list wcall :=
 
 Lemma two_failing_orders :
   let w := final (wstep fixed) (w_init false) two_failing in
-  snd (w_compile fixed w opt_default ["a"]) = OErr EEdgeStartUnknown /\
-  snd (w_compile fixed w opt_default ["b"]) = OErr EMapped.
+  snd (w_compile fixed w opt_default ["a"] []) = OErr EEdgeStartUnknown /\
+  snd (w_compile fixed w opt_default ["b"] []) = OErr EMapped.
 Proof. vm_compute. split; reflexivity. Qed.
+
+(* ================================================================== 8. static values after a Compile (F-C20e) *)
+(* a static value set after a successful Compile is not applied by the next Compile: it fails *)
+Theorem static_after_compile_refused : forall w o ord sord k n,
+  g_compiled (w_g w) = true -> alist_get k (w_nodes w) = Some n -> wn_static n <> [] ->
+  is_err (snd (w_compile fixed w o ord sord)).
+Proof.
+  intros w o ord sord k n C G ST. unfold w_compile. destruct (g_err (w_g w)) eqn:E; [eexists; reflexivity|].
+  destruct (frozen_run_branches (w_branches w) w C) as [_ [B2 B3]].
+  pose proof (run_branches_nodes fixed (w_branches w) w) as BN.
+  destruct (run_branches fixed w (w_branches w)) as [w1 [out|]] eqn:B; simpl in *.
+  - eapply run_branches_stop_is_err; eassumption.
+  - specialize (B3 eq_refl).
+    assert (E1 : g_err (w_g w1) = None) by (rewrite B3; assumption).
+    pose proof (frozen_run_nodes (ord ++ map fst (w_nodes w1)) w1 B2 E1) as FR.
+    destruct (run_nodes w1 (ord ++ map fst (w_nodes w1))) as [w2 [er|]] eqn:R; simpl in *; [eexists; reflexivity|].
+    assert (G1 : alist_get k (w_nodes w1) = Some n) by (rewrite BN; exact G).
+    assert (IK : In k (ord ++ map fst (w_nodes w1))).
+    { apply in_or_app. right. eapply alist_get_in_keys; eassumption. }
+    pose proof (run_nodes_final_node _ _ _ _ _ R G1 IK) as G2.
+    assert (C2 : g_compiled (w_g w2) = true) by (rewrite FR; assumption).
+    destruct (run_statics fixed w2 (sord ++ map fst (w_nodes w2))) as [w3 [er|]] eqn:S; simpl; [eexists; reflexivity|].
+    exfalso.
+    assert (Q : snd (run_statics fixed w2 (sord ++ map fst (w_nodes w2))) = None) by (rewrite S; reflexivity).
+    assert (IK2 : In k (sord ++ map fst (w_nodes w2))).
+    { apply in_or_app. right. eapply alist_get_in_keys; eassumption. }
+    pose proof (proj1 (run_statics_ok_iff _ w2) Q k IK2) as OKK. unfold st_ok in OKK. rewrite G2 in OKK. simpl in OKK.
+    destruct OKK as [X|[X _]]; [contradiction|congruence].
+Qed.
+
+Definition static_after_compile : list wcall :=
+  [ WAddNode "a" NLambda false; WAddInput "a" START WNormal ["A"]; WAddInput END_ "a" WNormal [];
+    WCompile opt_default [] []; WSetStatic "a" "B"; WCompile opt_default [] [] ].
+
+Lemma static_after_compile_v0 :
+  match snd (run_calls (wstep v0) (w_init false) static_after_compile) with
+  | [OOk; OOk; OOk; OCompiled r1; OOk; OCompiled r2] => r_prenode r1 = None /\ True
+  | _ => False
+  end.
+Proof. vm_compute. split; [reflexivity|exact I]. Qed.
+
+Lemma static_after_compile_fixed :
+  match snd (run_calls (wstep fixed) (w_init false) static_after_compile) with
+  | [OOk; OOk; OOk; OCompiled _; OOk; OErr ECompiled] => True
+  | _ => False
+  end.
+Proof. vm_compute. exact I. Qed.
+
+Lemma static_after_compile_v0_false :
+  ~ (forall w o ord sord k n, g_compiled (w_g w) = true -> alist_get k (w_nodes w) = Some n -> wn_static n <> [] ->
+       is_err (snd (w_compile v0 w o ord sord))).
+Proof.
+  intros H.
+  remember (final (wstep v0) (w_init false)
+              [WAddNode "a" NLambda false; WAddInput "a" START WNormal ["A"]; WAddInput END_ "a" WNormal [];
+               WCompile opt_default [] []; WSetStatic "a" "B"]) as w eqn:Ew.
+  vm_compute in Ew.
+  assert (X : is_err (snd (w_compile v0 w opt_default [] []))).
+  { apply (H w opt_default [] [] "a" (mkWN [] (MFields ["A"]) ["B"])); subst w; try reflexivity. discriminate. }
+  subst w. vm_compute in X. destruct X as [e X]. discriminate X.
+Qed.
